@@ -74,6 +74,38 @@ def negLastRow {m : ℕ} (M : Matrix (Fin (m + 1)) (Fin n) K) : Matrix (Fin (m +
 def makeOriented [LinearOrder K] {m : ℕ} (M : Matrix (Fin (m + 1)) (Fin (m + 1)) K) :
     Matrix (Fin (m + 1)) (Fin (m + 1)) K := if M.det < 0 then negLastRow M else M
 
+/-! ### the SVD-based isometry constructors of `hyperbolic.py`, given the kernel basis -/
+
+section ctors
+variable [LinearOrder K]
+
+/-- `Point.origin_to(force_oriented=False)`: `find_isometry(minkowski, [normalize(x)])` -/
+def originTo (r : K → K) (x : Fin (n + 1) → K) (ker : List (Fin (n + 1) → K)) : List (Fin (n + 1) → K) :=
+  findIsometry r (minkJ n) [normalizeVec r (minkJ n) x] ker
+
+/-- `TangentVector.origin_to(force_oriented=False)`: `find_isometry(minkowski, normalize([x, v]))`
+(`v` the tangent vector stored in `aux_data`, Minkowski-orthogonal to the base point `x`) -/
+def tangentOriginTo (r : K → K) (x v : Fin (n + 1) → K) (ker : List (Fin (n + 1) → K)) : List (Fin (n + 1) → K) :=
+  findIsometry r (minkJ n) [normalizeVec r (minkJ n) x, normalizeVec r (minkJ n) v] ker
+
+/-- the frame `(t, v̂)` completed by (repaired) `hyperbolic.spacelike_to`:
+`t = e₀ − projection(e₀, v̂)` -/
+def spacelikeFrame (r : K → K) (v : Fin (n + 1) → K) : List (Fin (n + 1) → K) :=
+  let vn := normalizeVec r (minkJ n) v
+  [Pi.single 0 1 - gproj (minkJ n) (Pi.single 0 1) vn, vn]
+
+/-- `hyperbolic.spacelike_to(v, force_oriented=False)` -/
+def spacelikeTo (r : K → K) (v : Fin (n + 1) → K) (ker : List (Fin (n + 1) → K)) : List (Fin (n + 1) → K) :=
+  findIsometry r (minkJ n) (spacelikeFrame r v) ker
+
+end ctors
+
+/-- `CoxeterGroup.hyperbolic_rep` on one group element: the geometric representation `ρ(g)`
+conjugated by the output `(W, Winv)` of `diagonalize_form(cosine matrix)` and wrapped with
+`column_vectors=True`: the stored row matrix is `(Winv ρ W)ᵀ` -/
+def hyperbolicRepMat {p : ℕ} (W Winv rho : Matrix (Fin p) (Fin p) K) : Matrix (Fin p) (Fin p) K :=
+  (Winv * rho * W)ᵀ
+
 /-! ### array-backed execution -/
 
 section exec
